@@ -116,6 +116,14 @@ def run_correspondence(pid, tier, seed, replay=None):
             rc, out = sh([HARNESS, "eval", "x", tier, str(seed)], env=env, stdin=data, timeout=7200)
             if rc != 0: problems.append(f"harness eval (corpus) failed rc={rc}: {out[-500:]}")
             chunks.append(out)
+        if PROPS[pid].get("model_emitted"):
+            # requests whose input bytes the model's own encoders produce (`sfsmodel --emit`), evaluated by the implementation
+            rc, data = sh([DRIVER, "--emit", str(seed)], timeout=600, stdin=b"")
+            if rc != 0 or "\t" not in data: problems.append(f"model driver --emit failed rc={rc}: {data[-300:]}")
+            else:
+                rc, out = sh([HARNESS, "eval", "x", tier, str(seed)], env=env, stdin=data.encode(), timeout=7200)
+                if rc != 0: problems.append(f"harness eval (model-emitted requests) failed rc={rc}: {out[-500:]}")
+                chunks.append(out)
         rc, out = sh([HARNESS, "run", pid.lower(), tier, str(seed)], env=env, timeout=14400)
         if rc != 0: problems.append(f"harness run failed rc={rc}: {out[-500:]}")
         chunks.append(out)
